@@ -13,6 +13,7 @@ mod escaping;
 mod rules;
 mod grammar;
 mod generate;
+mod cli;
 
 use common::*;
 use std::sync::Mutex;
@@ -52,7 +53,8 @@ fn main() {
             "C19" => render::replay(&prop, &r),
             "C07" => cram::replay(&prop, &r),
             "C08" => grammar::replay(&prop, &r),
-            "C09" | "C10" => generate::replay(&prop, &r),
+            // two harness modules: the end-to-end ops of cli.rs are recognised by their shape
+            "C09" | "C10" => if cli::is_cli_op(&r) { cli::replay(&prop, &r) } else { generate::replay(&prop, &r) },
             "C11" => escaping::replay(&prop, &r),
             "C04" => {
                 // the property has two harness modules: dispatch on the op name
@@ -76,7 +78,11 @@ fn main() {
         "C19" => render::run(&ctx, &prop),
         "C07" => cram::run(&ctx, &prop),
         "C08" => grammar::run(&ctx, &prop),
-        "C09" | "C10" => generate::run(&ctx, &prop),
+        "C09" | "C10" => {
+            // library generators vs the Lean model in-process, then the command-line glue (create.rs, update.rs) end to end
+            generate::run(&ctx, &prop);
+            cli::run(&ctx, &prop);
+        }
         "C11" => escaping::run(&ctx, &prop),
         "C04" => {
             // string kinds (equal, no-eol, escaped) and pattern kinds (glob, cram glob, regex)
